@@ -260,6 +260,13 @@ def fixed_trees():
         "partials": [(0, ("PT0", [0])), (1, ("PT1", [0, 1]))],
         "patches": [(0, ("PA0", [0])), (1, ("PA1", [1]))],
         "performances": [(0, ("PERF 0", [0, 1]))], "volumes": [("VOL A", [0])]}))
+    # a sample with leading clusters to skip (cluster_top > 0) reached several times in one run: two performances, two volumes, an orphan
+    out.append(("shared sample with cluster_top > 0 in several performances", {
+        "fat": 1, "samples": [(0, sample_spec("S0", 5000, None, mode=0, freq=1, top=2)), (1, sample_spec("S1", 300, None, mode=5, freq=2, top=1)), smp(2)],
+        "partials": [(0, ("PT0", [0, 1])), (1, ("PT1", [1, 0, 2]))],
+        "patches": [(0, ("PA0", [0])), (1, ("PA1", [1]))],
+        "performances": [(0, ("PERF 0", [0])), (1, ("PERF 1", [1])), (2, ("PERF 2", [0]))],
+        "volumes": [("VOL A", [0, 1]), ("VOL B", [1])]}))
     out.append(("patch shared by performances, partial shared by patches, high record numbers", {
         "fat": 2, "samples": [(8191, sample_spec("S8191", 70)), (4000, sample_spec("S4000", 71, mode=5))],
         "partials": [(4095, ("PT4095", [8191, 4000]))],
@@ -271,7 +278,8 @@ def fixed_trees():
 
 def gen_tree(rng):
     ns = rng.randint(1, 10)
-    samples = [(n, sample_spec("S%d" % n, rng.choice([1, 5, 64, 200]) + n, None, mode=rng.randrange(7), freq=rng.randrange(6)))
+    samples = [(n, sample_spec("S%d" % n, rng.choice([1, 5, 64, 200]) + n, None, mode=rng.randrange(7), freq=rng.randrange(6),
+                               top=rng.choice([0, 0, 1, 2])))
                for n in sorted(rng.sample(range(0, 40), ns))]
     snums = [n for n, _ in samples]
     npt = rng.randint(1, 6)
